@@ -34,6 +34,15 @@ theorem join_nil_iff (es : ErrList) (hs : ∀ e ∈ es.toList, e.solid = true) :
     join es = none ↔ es.toList = [] := by
   rw [join_nil_iff_no_parts]; exact ErrList.toList_nil_of_parts es hs
 
+/-- The excluded point is real (known finding `ers.Stack.Push:empty-aggregate-dropped`): a non-nil
+    aggregate that lists no constituent is dropped, so without `solid` the statement above is false
+    of the model — and, by the correspondence run on exactly these terms, of the code. -/
+theorem join_nil_iff_fails_without_solid :
+    ¬ (∀ es : ErrList, join es = none ↔ es.toList = []) := by
+  intro h
+  have := (h (.cons (.multi 7 .nil) .nil)).mp (by decide)
+  simp [ErrList.toList] at this
+
 /-- Join of a single plain error returns that very error. -/
 theorem join_single_identity (e : Err) (h : e.plain = true) : join (.cons e .nil) = some e := by
   simp [join, flatten_eq, ErrList.partsAll, Err.parts_of_plain e h, resolve]
